@@ -15,7 +15,9 @@ def eng_copyprobe(pid, tier, wd, known, replay=None):
     lost = [(n, f, st) for n, f, st in rows if st != "KEPT" and (n, f) not in MEANINGLESS]
     for n, f, st in lost:
         key = "copyast:%s.%s" % (n, f)
-        why = "copyAST %s for node kind %s%s" % ("panics" if st.startswith("PANIC") else "drops field " + f, n, "" if f == "*" else "." + f)
+        why = "copyAST %s for node kind %s%s" % ("panics" if st.startswith("PANIC") else ("shares (does not copy) field " + f if st == "SHARED" else "drops field " + f), n, "" if f == "*" else "." + f)
+        if st == "SHARED":
+            why += " -- the rewriting of the copy then edits the user's own syntax tree, which every later reader of the expression sees"
         if key in kf:
             knownl.append(key + ": " + kf[key].get("what_fails", why))
         else:
@@ -49,7 +51,7 @@ def eng_copyprobe(pid, tier, wd, known, replay=None):
         viol.append(({"property": pid, "kind": "no-failing-input-found", "broken": "table theorem copy_table_complete", "coqc": (out + err)[-800:], "seed": seed()}, False))
     return {"name": "copy-probe", "evaluations": len(rows), "distinct_nontrivial": len(rows), "exhaustive": True,
             "samples": [{"row": rows[10]}], "traces": len(rows), "stats": {"node_kinds": len(nodes), "fields": len(rows), "lost": [list(x) for x in lost], "table_theorem": table_ok},
-            "rule": "one fully populated instance of every go/ast node type (reflection over the toolchain's go/ast) through the real copyAST, every exported field deep-compared; "
+            "rule": "one fully populated instance of every go/ast node type (reflection over the toolchain's go/ast) through the real copyAST, every exported field deep-compared and checked not to share a node (other than identifiers) or a slice with the original; "
                     "table theorem (every declared child field is copied) re-proved by vm_compute, lifted to all trees by CopyAst.copy_id",
             "violations": viol, "known": knownl}
 
